@@ -35,6 +35,7 @@ type verifConn struct {
 	writes   int
 	failAt   int           // index of the WriteTo call that fails (-1: none)
 	readErr  chan struct{} // closed when reading starts to fail (a fault of the socket, not Close)
+	wdl      int64         // write deadline as a virtual instant (0: none), as net.PacketConn specifies
 }
 
 func newVerifConn() *verifConn {
@@ -43,6 +44,7 @@ func newVerifConn() *verifConn {
 
 var errVerifClosed = errors.New("verif: use of closed connection")
 var errVerifWrite = errors.New("verif: write failed")
+var errVerifWriteTimeout = errors.New("verif: write: i/o timeout")
 var errVerifReadFault = errors.New("verif: read failed")
 
 func (c *verifConn) ReadFrom(b []byte) (int, net.Addr, error) {
@@ -64,6 +66,10 @@ func (c *verifConn) failReadAt(t int64) {
 
 func (c *verifConn) WriteTo(b []byte, a net.Addr) (int, error) {
 	c.mu.Lock()
+	if c.wdl != 0 && verifNow() > c.wdl {
+		c.mu.Unlock()
+		return 0, errVerifWriteTimeout // the deadline set on the connection has passed
+	}
 	if c.writes == c.failAt {
 		c.writes++
 		c.mu.Unlock()
@@ -87,7 +93,16 @@ func (c *verifConn) Close() error {
 func (c *verifConn) LocalAddr() net.Addr                { return &net.UDPAddr{Port: 68} }
 func (c *verifConn) SetDeadline(t time.Time) error      { return nil }
 func (c *verifConn) SetReadDeadline(t time.Time) error  { return nil }
-func (c *verifConn) SetWriteDeadline(t time.Time) error { return nil }
+func (c *verifConn) SetWriteDeadline(t time.Time) error {
+	c.mu.Lock()
+	if t.IsZero() {
+		c.wdl = 0
+	} else {
+		c.wdl = t.UnixNano()
+	}
+	c.mu.Unlock()
+	return nil
+}
 
 // deliver schedules datagram d for arrival at virtual instant t.
 func (c *verifConn) deliver(t int64, data []byte) {
@@ -102,8 +117,9 @@ func (c *verifConn) deliver(t int64, data []byte) {
 
 // verifCtx is a context.Context cancelled by the environment.
 type verifCtx struct {
-	done chan struct{}
-	err  error
+	done     chan struct{}
+	err      error
+	deadline int64 // virtual instant of the context's deadline (0: none)
 }
 
 func newVerifCtx() *verifCtx { return &verifCtx{done: make(chan struct{})} }
@@ -111,7 +127,12 @@ func newVerifCtx() *verifCtx { return &verifCtx{done: make(chan struct{})} }
 var errVerifCanceled = errors.New("verif: context canceled")
 var errVerifCloseFailed = errors.New("verif: close failed")
 
-func (c *verifCtx) Deadline() (time.Time, bool) { return time.Time{}, false }
+func (c *verifCtx) Deadline() (time.Time, bool) {
+	if c.deadline != 0 {
+		return time.Unix(0, c.deadline), true
+	}
+	return time.Time{}, false
+}
 func (c *verifCtx) Done() <-chan struct{}       { return c.done }
 func (c *verifCtx) Err() error                  { return c.err }
 func (c *verifCtx) Value(key any) any           { return nil }
